@@ -373,7 +373,26 @@ func (p *Program) Explore(name string, entry *ssa.Function, args []Value, opts O
 			}
 		}(workers[i])
 	}
+	stopProg := make(chan struct{})
+	if opts.Verbose {
+		go func() {
+			tk := time.NewTicker(5 * time.Second)
+			defer tk.Stop()
+			for {
+				select {
+				case <-stopProg:
+					return
+				case <-tk.C:
+					r.mu.Lock()
+					ql := len(r.queue)
+					r.mu.Unlock()
+					fmt.Printf("  .. %s t=%.0fs paths=%d queue=%d forks=%d steps=%d viol=%d\n", name, time.Since(t0).Seconds(), r.paths.Load(), ql, r.forks.Load(), r.steps.Load(), len(r.violations))
+				}
+			}
+		}()
+	}
 	wg.Wait()
+	close(stopProg)
 	res := &RunResult{Harness: name, Paths: r.paths.Load(), Done: r.done.Load(), Killed: r.killed.Load(), Panicked: r.panicked.Load(),
 		Failed: r.failed.Load(), Forks: r.forks.Load(), Steps: r.steps.Load(), Obligations: r.obl.Load(), Discharged: r.discharged.Load(),
 		Violations: r.violations, Reached: r.reached, Wall: time.Since(t0), Logs: r.logs, MemEvents: r.memEvents.Load(), Samples: r.samples,
